@@ -59,12 +59,25 @@ def safe_read(data):
     signal.signal(signal.SIGALRM, _alarm)
     signal.setitimer(signal.ITIMER_REAL, HANG_S)
     try:
-        las = laspy.read(io.BytesIO(data))
-        return ("ok", las.points.array.tobytes(), len(las.points))
+        try:
+            las = laspy.read(io.BytesIO(data))
+            return ("ok", las.points.array.tobytes(), len(las.points))
+        except Timeout:
+            raise
+        except Exception as e:
+            first = type(e).__name__
+        # laspy.read also parses the EVLRs; through the stale pointer of an interrupted session they may be garbage and
+        # raise. The property constrains the points: read them without the EVLRs
+        try:
+            with laspy.open(io.BytesIO(data), read_evlrs=False) as rd:
+                pts = rd.read_points(-1)
+            return ("ok", pts.array.tobytes(), len(pts), "evlr_error:" + first)
+        except Timeout:
+            raise
+        except Exception:
+            return ("err", first)
     except Timeout:
         return ("hang",)
-    except Exception as e:
-        return ("err", type(e).__name__)
     finally:
         signal.setitimer(signal.ITIMER_REAL, 0)
 
@@ -97,6 +110,8 @@ HANGS = [0]
 def check_image(ck, img, intended, size, inp, what, lines, meta):
     r = safe_read(img)
     ck.count("verdict:" + r[0] + (":" + r[1] if r[0] == "err" else ""))
+    if r[0] == "ok" and len(r) > 3:
+        ck.count("points_read_without_evlrs_after_" + r[3])
     if r[0] == "hang":
         ck.fail(f"{what}: reading did not terminate within {HANG_S:.0f} s", inp)
         HANGS[0] += 1
